@@ -368,6 +368,83 @@ func c17Run(rc *RunCtx, params any) {
 				s.Probe("backoff-floor-checked")
 			}
 		}
+		// (3c) a flight that cannot have been acknowledged keeps being retransmitted: if part of the
+		// first transmission of the endpoint's current flight was lost and nothing it sent afterwards
+		// got through either, the peer cannot have acknowledged that part (in DTLS 1.3) nor answered
+		// it (in either version), so as long as the handshake call has not returned the timer must
+		// keep firing; the last retransmission lies within one capped interval of the end of the run
+		if !hs.Done {
+			type grp struct {
+				at              time.Duration
+				timer, hasHS    bool
+				cookie, dropped bool
+			}
+			var gs []grp
+			deliv := map[time.Duration]bool{}
+			for _, d := range n.Deliv {
+				if d.Ep == ep {
+					deliv[d.At] = true
+				}
+			}
+			for _, em := range n.EmitsOf(ep) {
+				if len(gs) == 0 || gs[len(gs)-1].at != em.At {
+					gs = append(gs, grp{at: em.At, timer: !deliv[em.At] && !opTimes[em.At] && len(gs) > 0})
+				}
+				g := &gs[len(gs)-1]
+				recs, _ := ParseDatagram(em.Data, 0)
+				for _, r := range recs {
+					if (r.Unified && r.Epoch == 2) || (!r.Unified && r.Type == CTHandshake) {
+						g.hasHS = true
+					}
+					for _, f := range r.Hs {
+						if f.Type == HTHelloVerifyRequest {
+							g.cookie = true
+						}
+						if f.Type == HTServerHello && f.FLen == f.Length {
+							if sh, err := ParseServerHello(f.Body); err == nil && sh.IsHRR {
+								g.cookie = true
+							}
+						}
+					}
+				}
+				if em.Act == ActDrop {
+					g.dropped = true
+				}
+			}
+			fi := -1
+			for i, g := range gs {
+				if !g.timer && g.hasHS {
+					fi = i
+				}
+			}
+			if fi >= 0 && gs[fi].dropped && !gs[fi].cookie {
+				allLost := true
+				for _, em := range n.EmitsOf(ep) {
+					if em.At > gs[fi].at && em.Act != ActDrop {
+						allLost = false
+					}
+				}
+				last := gs[fi].at
+				for _, g := range gs[fi+1:] {
+					if g.timer {
+						last = g.at
+					}
+				}
+				capGap := 60 * time.Second
+				if p.NoBack {
+					capGap = I
+				}
+				end := s.Now()
+				if allLost && end-last > capGap+I+time.Second {
+					rc.Violate("retransmission-stopped", "%s (%s, I=%v, backoff=%v): part of the flight it first sent at t=%v never arrived and nothing it sent later did, its handshake call has not returned, yet its last retransmission was at t=%v and the run ended at t=%v (more than a full capped interval later)", ep, p.Mode, I, !p.NoBack, gs[fi].at, last, end)
+
+					goto done
+				}
+				if allLost {
+					s.Probe("unacknowledgeable-flight-kept-retransmitting")
+				}
+			}
+		}
 		// (5) no storm: emissions bounded by timer slots + deliveries
 		{
 			slots := 0
